@@ -18,7 +18,7 @@ CACHE="$(cd "$CACHE" && pwd)"
 J="${VERIF_JOBS:-16}"
 
 if [ "$FLAV" = all ]; then
-  for f in real complex real-san complex-san; do "$0" "$f" >/dev/null; done
+  for f in real complex real-san complex-san sim; do "$0" "$f" >/dev/null; done
   "$0" real
   exit 0
 fi
@@ -118,7 +118,9 @@ if ! echo "$SRCS" | xargs -P "$J" -I{} bash -c 'compile_one {}' ; then
 fi
 ar rcs "$OUT/libpomerol.a" "$OUT"/obj/*.o
 LIBS="$OUT/libpomerol.a -lboost_mpi -lboost_serialization $MPILIB"
-for r in pomrun; do
+RUNNERS="pomrun"
+if [ "$FLAV" = real ]; then RUNNERS="pomrun skelrun"; fi
+for r in $RUNNERS; do
   if ! $CXX $COMMON $OPT $INC -I"$HERE/runner" "$HERE/runner/$r.cpp" $LIBS -o "$OUT/$r" >>"$LOG" 2>&1; then
     echo "RUNNER-BUILD-FAILED flavour=$FLAV runner=$r log=$LOG" >&2; tail -40 "$LOG" >&2; exit 4
   fi
